@@ -596,7 +596,11 @@ class TBRMatchedMarkets:
 
     kappa_0 = len(self.geo_assignments.t_fixed)
     group_star_trt = {kappa_0: self.geo_assignments.t_fixed}
-    tmp_diag = TBRMMDiagnostics(np.random.normal(range(100)), self.parameters)
+    # The placeholder series must leave enough pretest time points for its A/A
+    # test, whatever the length of the test period.
+    n_placeholder = max(100, self.parameters.n_test + 3)
+    tmp_diag = TBRMMDiagnostics(np.random.normal(range(n_placeholder)),
+                                self.parameters)
     tmp_diag.x = list(range(len(tmp_diag.y)))
     tmp_score = TBRMMScore(tmp_diag)
     tmp_score.score = tmp_score.score._replace(
